@@ -14,7 +14,7 @@ namespace no = nitro::options;
 
 struct Ev
 {
-    char type;        // 'D' declare, 'S' short_name, 'M' move
+    char type;        // 'D' declare, 'S' short_name, 'M' move (old parser destroyed), 'K' move (old parser kept alive), 'P' parse
     char kind = 'o';  // D
     std::string name; // D, S
     std::string group; // D: "", g1, g2
@@ -23,6 +23,10 @@ struct Ev
     {
         if (type == 'M')
             return "MOVE";
+        if (type == 'K')
+            return "MOVE-KEEP-OLD";
+        if (type == 'P')
+            return "PARSE";
         if (type == 'D')
             return std::string(kind == 'o' ? "option" : kind == 'm' ? "multi_option" : "toggle") + "(" + name + ")@" +
                    (group.empty() ? "parser" : group);
@@ -32,6 +36,10 @@ struct Ev
     {
         if (type == 'M')
             return "MOVE";
+        if (type == 'K')
+            return "MOVEK";
+        if (type == 'P')
+            return "PARSE";
         if (type == 'D')
             return std::string("D") + kind + (group.empty() ? "" : "@g");
         return "S" + std::to_string(sh.size());
@@ -49,6 +57,8 @@ static std::vector<Ev> alphabet()
         for (auto s : { "x", "y", "", "xy" })
             a.push_back({ 'S', 'o', n, "", s });
     a.push_back({ 'M' });
+    a.push_back({ 'K' });
+    a.push_back({ 'P' });
     return a;
 }
 
@@ -62,9 +72,10 @@ struct RefState
 {
     std::map<std::string, RefItem> items;
     bool moved = false;
+    bool parsed = false;
     std::string key() const
     {
-        std::string s = moved ? "M" : "-";
+        std::string s = std::string(moved ? "M" : "-") + (parsed ? "P" : "-");
         for (auto& i : items)
             s += "|" + i.first + ":" + i.second.kind + "@" + i.second.group + "/" + i.second.sh;
         return s;
@@ -100,6 +111,7 @@ struct Live
     std::map<std::string, no::option*> o;
     std::map<std::string, no::multi_option*> m;
     std::map<std::string, no::toggle*> t;
+    std::vector<std::unique_ptr<no::parser>> kept; // moved-from parsers that stay alive
 };
 
 struct StepResult
@@ -112,11 +124,34 @@ struct StepResult
 static StepResult apply(Live& L, RefState& R, const Ev& e)
 {
     StepResult r;
-    if (e.type == 'M')
+    if (e.type == 'M' || e.type == 'K')
     {
         std::unique_ptr<no::parser> np(new no::parser(std::move(*L.p)));
-        L.p = std::move(np); // destroys the moved-from parser
+        if (e.type == 'K')
+            L.kept.push_back(std::move(L.p)); // the moved-from parser stays alive
+        L.p = std::move(np);                  // (otherwise it is destroyed here)
         R.moved = true;
+        return r;
+    }
+    if (e.type == 'P')
+    {
+        // a parse in the middle of the declarations; all items are optional, so it succeeds unless a letter is shared
+        Decl D = R.decl();
+        auto got = run_on(*L.p, D, {});
+        R.parsed = true;
+        bool conflict = R.letter_conflict();
+        if (conflict && (got.ok || got.why.rfind("parser_error", 0) != 0))
+        {
+            r.diverged = true;
+            r.clause = "parser-with-shared-letter-parses";
+            r.detail = "PARSE: two items share a letter in state " + R.key() + " but parse() gave " + (got.ok ? got.str() : got.why);
+        }
+        else if (!conflict && !got.ok)
+        {
+            r.diverged = true;
+            r.clause = "unambiguous-parser-refuses-to-parse";
+            r.detail = "PARSE in state " + R.key() + " threw " + got.why;
+        }
         return r;
     }
     if (e.type == 'D')
@@ -486,7 +521,7 @@ int main(int argc, char** argv)
     auto rep = sh.run();
     rep.counters["bound_history_depth"] = d;
     rep.counters["events"] = alpha.size();
-    rep.notes["rule"] = "27 events (declare 3 kinds x names a|b x parser|g1|g2; short_name x|y|''|'xy'; MOVE); every history of "
+    rep.notes["rule"] = "29 events (declare 3 kinds x names a|b x parser|g1|g2; short_name x|y|''|'xy'; MOVE destroying / keeping the old parser; PARSE); every history of "
                         "length <= d without de-duplication, then BFS to a fixpoint de-duplicated on the reference state + moved "
                         "flag from each first event; probes (empty vector, every long and short spelling) at every state; "
                         "non-trivial = histories reaching a state with two items or after a MOVE";
